@@ -1257,10 +1257,18 @@ func (h *doneHub) clear() {
 }
 
 var enqCount int64
+var sentinelWid atomic.Value // string: work id (group) of the sentinel request
+var sentinelEnq = make(chan struct{}, 64)
 
 func (h *doneHub) note(pt, s string, n int) {
 	if pt == "enq-new" || pt == "enq-append" {
 		atomic.AddInt64(&enqCount, 1)
+		if w, _ := sentinelWid.Load().(string); w != "" && w == s {
+			select {
+			case sentinelEnq <- struct{}{}:
+			default:
+			}
+		}
 		return
 	}
 	if pt != "request-done" {
@@ -1322,6 +1330,27 @@ func probe(s *res.Service, conn *recConn, d desc, tag string) bool {
 	return n == 1 && ok
 }
 
+// A sentinel request (to the probe resource) is sent right behind the request(s) under test: the listener goroutine
+// handles messages one after the other, so once the sentinel has been handed to the work queue the listener is
+// through with everything before it. Returns how many work-queue hand-overs happened since `before`, the
+// sentinel's own excluded - a request that the listener dropped (or never routed) shows up as a missing one,
+// at once, instead of as a long wait for a completion note that cannot come.
+func passListener(conn *recConn, d desc, before int64, tag string) (enqueued int64, passed bool) {
+	for len(sentinelEnq) > 0 {
+		<-sentinelEnq
+	}
+	sentinelWid.Store(fullName(d.Service, probeName))
+	subj := "call." + fullName(d.Service, probeName) + ".ping"
+	c := hub.expect(subj)
+	conn.inCh <- &nats.Msg{Subject: subj, Reply: "_INBOX.probe.sentinel." + tag}
+	passed = wait(sentinelEnq, 5*time.Second)
+	sentinelWid.Store("")
+	if passed {
+		wait(c, 5*time.Second)
+	}
+	return atomic.LoadInt64(&enqCount) - before - 1, passed
+}
+
 func runSingle(d desc) string {
 	rec := &recorder{}
 	s, conn, served := startService(d, rec)
@@ -1329,17 +1358,15 @@ func runSingle(d desc) string {
 	route := routeTerm(s, d, rq)
 	mark := len(conn.snapshot())
 	c := hub.expect(rq.Subject)
+	before := atomic.LoadInt64(&enqCount)
 	conn.inCh <- &nats.Msg{Subject: rq.Subject, Reply: rq.Reply, Data: []byte(rq.Payload)}
-	wellFormed := len(rq.Parts) == 3 && rq.Reply != ""
+	// bounded and fast whatever happens to the request: handed to a worker => wait for its completion note;
+	// not handed over (malformed subject, no reply subject, dropped by the listener) => judged "not completed"
 	done := false
-	if wellFormed {
+	if enq, passed := passListener(conn, d, before, "x"); passed && enq >= 1 {
 		done = wait(c, 5*time.Second)
 	}
 	probeOK := probe(s, conn, d, "x")
-	if !wellFormed {
-		// the listener has passed the message (it handled the probe after it): a completion note can only be late by scheduling
-		done = wait(c, 30*time.Millisecond)
-	}
 	rec.mu.Lock()
 	rec.off = true
 	logTerms := append([]string(nil), rec.log...)
@@ -1438,10 +1465,16 @@ func runConc(d desc) []string {
 	}
 	wg.Wait()
 	doneBy := map[string]bool{}
+	passListener(conn, d, 0, "c")
+	deadline := time.Now().Add(6 * time.Second) // shared: requests that were lost or dropped never complete
 	for sj, n := range perSubj {
 		ok := true
 		for i := 0; i < n; i++ {
-			if !wait(subjCh[sj], 10*time.Second) {
+			rem := time.Until(deadline)
+			if rem < 0 {
+				rem = 0
+			}
+			if !wait(subjCh[sj], rem+time.Millisecond) {
 				ok = false
 				break
 			}
@@ -1571,9 +1604,9 @@ func runPair(d desc) ([]string, []string) {
 	conn.inCh <- &nats.Msg{Subject: a.Subject, Reply: a.Reply, Data: []byte(a.Payload)}
 	enteredOK := wait(rec.entered, 5*time.Second)
 	conn.inCh <- &nats.Msg{Subject: b.Subject, Reply: b.Reply, Data: []byte(b.Payload)}
-	doneB := wait(cb, 5*time.Second)
+	doneB := wait(cb, 2*time.Second)
 	close(rec.release)
-	doneA := wait(ca, 5*time.Second)
+	doneA := wait(ca, 2*time.Second)
 	probeOK := probe(s, conn, d, "p")
 	all := conn.snapshot()
 	var viol []string
@@ -2325,6 +2358,31 @@ func genFlood(prop string, gseed uint64, idx, inCh, workers, nflood, nlate int) 
 	return d
 }
 
+// degenerate but deliverable resource names: "<service>.", "<service>..x", "<service>.a.", dots only, empty -
+// with and without method tokens, for named and unnamed services. The subject is still well-formed for
+// handleRequest (type, name, method), so exactly one response is due (normally system.notFound).
+func degenerate(r *Rng, prop string, seq, k int) desc {
+	types := []string{"get", "access", "call", "auth"}
+	d := genCase(r, shape{typ: types[k%4], mcase: []string{"named", "star", "none"}[r.Intn(3)], present: true, hpresent: true,
+		pkind: []string{"empty", "partial", "bad"}[r.Intn(3)], badIdx: r.Intn(9)}, prop, seq)
+	svc := d.Service
+	var names []string
+	if svc != "" {
+		names = []string{svc + ".", svc + "..x", svc + ".a.", svc + "..", svc + "...", "." + svc, svc + "..a.b", ".", "..", ""}
+	} else {
+		names = []string{".", "..x", "a.", "..", "", ".a", "a..b", "a.b."}
+	}
+	rn := names[(k/4)%len(names)]
+	typ, me := d.Req.Parts[0], d.Req.Parts[2]
+	d.Req.Parts = []string{typ, rn, me}
+	if typ == "call" || typ == "auth" {
+		d.Req.Subject = typ + "." + rn + "." + me
+	} else {
+		d.Req.Subject = typ + "." + rn
+	}
+	return d
+}
+
 // request payload whose every field is unique to the request id and of a length depending on it
 func uniqData(r *Rng, id int, kind string) (ReqData, string) {
 	pad := func(n int) string { return strings.Repeat("x", n) }
@@ -2522,6 +2580,7 @@ func main() {
 	r := NewRng(o.Seed*2 + uint64(len(*prop)) + uint64((*prop)[2]))
 	var ds []desc
 	mountTag := map[int]string{}
+	degTag := map[int]bool{}
 	dist := map[string]int{}
 	seq := 0
 	add := func(d desc) {
@@ -2646,6 +2705,15 @@ func main() {
 		for k := 0; k < 10; k++ {
 			add(malformed(r, *prop, seq, k))
 		}
+		// (c') degenerate but deliverable resource names
+		ndeg := 80
+		if o.Tier == "thorough" {
+			ndeg = 800
+		}
+		for k := 0; k < ndeg; k++ {
+			degTag[len(ds)] = true
+			add(degenerate(r, *prop, seq, k))
+		}
 		// (d) concurrent load
 		rounds := 2
 		if o.Tier == "thorough" {
@@ -2760,6 +2828,10 @@ func main() {
 		if ne {
 			c.Tags = append(c.Tags, "nil-error")
 		}
+		if degTag[i] {
+			c.Tags = append(c.Tags, "degenerate-name")
+			dist["degenerate-name"]++
+		}
 		if t := mountTag[i]; t != "" {
 			c.Tags = append(c.Tags, "mounts", t)
 			dist["mounts:"+t]++
@@ -2834,6 +2906,6 @@ func main() {
 			}
 		}
 	}
-	rule := "one request per case against a freshly served res.Service on a recording connection (scripts of 0-6 actions per handler, panic values incl. real runtime errors: index out of range, nil map write, nil dereference, divide by zero, failed type assertion; product of request type x method case {named,*,none,new with/without New handler,empty} x resource matched/unmatched x handler present/absent x payload {full,partial,empty,{},null,6 undecodable texts} + random shapes + malformed subjects + 2 rounds of 200 concurrent requests over 20 resource patterns, each request on its own resource name with payload values unique to it, handlers yielding before they read, compared per reply subject and per-request handler observations + 2 rounds of 200 requests on patterns with 12 path params routed while 4 goroutines call Service.With / Service.Resource on other names of the same token count (the load rounds have 3 such goroutines too); params and group expected in concurrent cases are derived from the subject with Pattern.Values + payloads that start with a valid JSON value (trailing bytes, two concatenated values, NUL/BOM/whitespace variants; validity judged by json.Valid on the bytes sent) + 126 requests on handler sets with sub-Muxes mounted (Mount/Route, depth 1-2, handlers added before/after mounting) under parent patterns that have placeholders at the mount position: names matching inside a mount, names entering a mount path but matching only a pattern of the parent / of the outer mount, near misses; expected path params and group always derived from subject + full registered pattern, never from the Mux + 6 queue-flood scenarios (in-channel size 1/2/4, 1-2 workers all held in stopped handlers, 40 requests on distinct and repeated resources delivered meanwhile, 6 more after release; thorough also the default 1024/32 with 3000 pending) + 60 overlap pairs: request A stopped inside its handler before (or between two) reads of its fields until request B on another worker group was processed completely, half of them under GOMAXPROCS=1); non-trivial = well-formed request whose pattern carries a non-empty script or whose payload does not decode; distinct by the whole case term"
+	rule := "one request per case against a freshly served res.Service on a recording connection (scripts of 0-6 actions per handler, panic values incl. real runtime errors: index out of range, nil map write, nil dereference, divide by zero, failed type assertion; product of request type x method case {named,*,none,new with/without New handler,empty} x resource matched/unmatched x handler present/absent x payload {full,partial,empty,{},null,6 undecodable texts} + random shapes + malformed subjects + 80 degenerate but deliverable resource names (<service>., <service>..x, trailing dot, dots only, empty; all four types, named and unnamed services) + 2 rounds of 200 concurrent requests over 20 resource patterns, each request on its own resource name with payload values unique to it, handlers yielding before they read, compared per reply subject and per-request handler observations + 2 rounds of 200 requests on patterns with 12 path params routed while 4 goroutines call Service.With / Service.Resource on other names of the same token count (the load rounds have 3 such goroutines too); params and group expected in concurrent cases are derived from the subject with Pattern.Values + payloads that start with a valid JSON value (trailing bytes, two concatenated values, NUL/BOM/whitespace variants; validity judged by json.Valid on the bytes sent) + 126 requests on handler sets with sub-Muxes mounted (Mount/Route, depth 1-2, handlers added before/after mounting) under parent patterns that have placeholders at the mount position: names matching inside a mount, names entering a mount path but matching only a pattern of the parent / of the outer mount, near misses; expected path params and group always derived from subject + full registered pattern, never from the Mux + 6 queue-flood scenarios (in-channel size 1/2/4, 1-2 workers all held in stopped handlers, 40 requests on distinct and repeated resources delivered meanwhile, 6 more after release; thorough also the default 1024/32 with 3000 pending) + 60 overlap pairs: request A stopped inside its handler before (or between two) reads of its fields until request B on another worker group was processed completely, half of them under GOMAXPROCS=1); non-trivial = well-formed request whose pattern carries a non-empty script or whose payload does not decode; distinct by the whole case term"
 	Emit(o, *prop, "From GoRes Require Import Run.Run_"+*prop+".", "rcase", rule, cases, dist, map[string]interface{}{"children_crashed": dist["crashed"], "racing_lookups_made": totalLookups}, impl, 250)
 }
